@@ -973,6 +973,9 @@ func (bc *Blockchain) resetStateInternal(height uint32, stage stateChangeStage) 
 		if bc.config.RemoveUntraceableBlocks && currHeight >= uint32(mtb) {
 			return fmt.Errorf("RemoveUntraceableBlocks is enabled, a necessary batch of traceable blocks has already been removed")
 		}
+		if bc.config.RemoveUntraceableBlocks && height < currHeight {
+			return fmt.Errorf("RemoveUntraceableBlocks is enabled, MPT nodes of the state at height %d are deactivated by later blocks", height)
+		}
 	}
 
 	// Retrieve necessary state before the DB modification.
